@@ -513,4 +513,181 @@ theorem ledger_of_hash {W1 W2 : VM P L} (hinit : W1.init = W2.init) (hcommit : W
         rw [k1 e1 (by simp), hhash, k2 e2 (by simp), hm.1]
       simp only [ledger, ho, hp, hm.1, hcommit]
 
+/-! ### an honest momentum is accepted whatever the pool holds -/
+
+theorem pushAll_eq_append (ts : List (Tx P)) :
+    ∀ (views : Nat → List (Tx P)) (a : Nat), pushAll views ts a = views a ++ pushAll (fun _ => []) ts a := by
+  induction ts with
+  | nil => intro views a; simp [pushAll]
+  | cons t ts ih =>
+    intro views a
+    simp only [pushAll]
+    rw [ih (upd views t.1.acct (views t.1.acct ++ [t])) a, ih (upd (fun _ => []) t.1.acct ([] ++ [t])) a]
+    simp only [upd]
+    by_cases ha : a = t.1.acct
+    · subst ha; simp
+    · simp [ha]
+
+theorem lastId_append_take {cf d r : List (Tx P)} : lastId (cf ++ (d ++ r).take d.length) = lastId (cf ++ d) := by
+  rw [List.take_left']
+  rfl
+
+/-- the delivered block, executed in its stated context and force-inserted, leaves the producer's transaction at the
+    producer's position — whether it was pooled before, competes with a pooled block, or extends the pool -/
+theorem addBlock_honest {W : VM P L} {U : Block → Prop} (hinj : ∀ b b', U b → U b' → b.id = b'.id → b = b')
+    {t : Node P} {x : Tx P} {d r : List (Tx P)} (hi : Inv U W t) (hx : U x.1)
+    (hok : TxOk W t.hist (conf W t.hist x.1.acct ++ d) x) (hp : t.pool x.1.acct = d ++ r) :
+    ∃ t' r', addBlock W true true t x.1 = some t' ∧ t'.pool x.1.acct = (d ++ [x]) ++ r' ∧
+      ∀ a, a ≠ x.1.acct → t'.pool a = t.pool a := by
+  obtain ⟨b, p⟩ := x
+  obtain ⟨hprev, hheight, l, hl, he⟩ := hok
+  simp only at hprev hheight hl he hx hp
+  obtain ⟨hacct, hst⟩ := hi.pool b.acct
+  by_cases hany : (t.pool b.acct).any (fun y => y.1.id == b.id) = true
+  · -- pooled under the same identifier: it is the producer's transaction, at the producer's position
+    refine ⟨t, ?_⟩
+    obtain ⟨y, hy, hyid⟩ := List.any_eq_true.1 hany
+    have hyb : y.1 = b := hinj _ _ (hi.blocks.1 _ y hy) hx (by simpa using hyid)
+    obtain ⟨j, hjlt, hj⟩ := List.getElem_of_mem hy
+    have hj' : (t.pool b.acct)[j]? = some y := by rw [List.getElem?_eq_getElem hjlt, hj]
+    have hh := hst.height_at j y hj'
+    rw [hyb, hheight, List.length_append] at hh
+    have hjd : j = d.length := by omega
+    subst hjd
+    rw [hp] at hj'
+    rw [List.getElem?_append_right (Nat.le_refl _), Nat.sub_self] at hj'
+    cases r with
+    | nil => simp at hj'
+    | cons y' r' =>
+      simp only [List.getElem?_cons_zero, Option.some.injEq] at hj'
+      subst hj'
+      rw [hp] at hst
+      have hty := (StackSound.append.1 hst).2.1
+      obtain ⟨_, _, l', hl', he'⟩ := hty
+      rw [hyb] at hl' he'
+      rw [hl] at hl'
+      cases hl'
+      rw [he] at he'
+      cases he'
+      refine ⟨r', ?_, ?_, fun _ _ => rfl⟩
+      · unfold addBlock; simp only [hany, if_true]
+      · rw [hp]
+        have : y' = (b, y'.2) := by rw [← hyb]
+        rw [← this]; simp
+  · -- not pooled: executed on the account chain up to its previous, inserted with force
+    have hsplit : splitFor (conf W t.hist b.acct) (t.pool b.acct) b = some (d, r) := by
+      unfold splitFor
+      have hk : b.height - 1 - (conf W t.hist b.acct).length = d.length := by
+        rw [hheight, List.length_append]; omega
+      simp only [hk]
+      rw [hp, lastId_append_take, List.take_left' rfl, List.drop_left' rfl, if_pos]
+      refine ⟨by rw [hheight, List.length_append]; omega, ?_, hprev.symm⟩
+      rw [hheight]; simp only [List.length_append]; omega
+    refine ⟨{ t with pool := upd t.pool b.acct (d ++ [(b, p)]) }, [], ?_, by simp [upd], ?_⟩
+    · unfold addBlock
+      simp only [hany, hl, hsplit, if_true, he, Bool.true_or]
+      cases r <;> simp
+    · intro a ha; simp [upd, ha]
+
+theorem blockLoop_honest {W : VM P L} {U : Block → Prop} (hinj : ∀ b b', U b → U b' → b.id = b'.id → b = b') :
+    ∀ (txs : List (Tx P)) (t : Node P) (done : Nat → List (Tx P)), Inv U W t → (∀ x ∈ txs, U x.1) →
+      TxsSound W t.hist (fun a => conf W t.hist a ++ done a) txs → (∀ a, ∃ r, t.pool a = done a ++ r) →
+      ∃ t', blockLoop W true true t (txs.map (·.1)) = (t', true) ∧ t'.hist = t.hist ∧ Inv U W t' ∧
+        ∀ a, ∃ r, t'.pool a = pushAll done txs a ++ r := by
+  intro txs
+  induction txs with
+  | nil => intro t done hi _ _ hp; exact ⟨t, rfl, rfl, hi, hp⟩
+  | cons x xs ih =>
+    intro t done hi hu hs hp
+    obtain ⟨r, hr⟩ := hp x.1.acct
+    obtain ⟨t1, r1, h1, h2, h3⟩ := addBlock_honest hinj hi (hu x (by simp)) hs.1 hr
+    have hh1 := addBlock_hist h1
+    have hs' : TxsSound W t1.hist (fun a => conf W t1.hist a ++ upd done x.1.acct (done x.1.acct ++ [x]) a) xs := by
+      rw [hh1]
+      have e : (fun a => conf W t.hist a ++ upd done x.1.acct (done x.1.acct ++ [x]) a) =
+          upd (fun a => conf W t.hist a ++ done a) x.1.acct ((conf W t.hist x.1.acct ++ done x.1.acct) ++ [x]) := by
+        funext a
+        simp only [upd]
+        by_cases ha : a = x.1.acct
+        · subst ha; simp
+        · simp [ha]
+      rw [e]; exact hs.2
+    have hp' : ∀ a, ∃ r, t1.pool a = upd done x.1.acct (done x.1.acct ++ [x]) a ++ r := by
+      intro a
+      simp only [upd]
+      by_cases ha : a = x.1.acct
+      · subst ha; exact ⟨r1, by simpa using h2⟩
+      · simp only [ha, if_false]; rw [h3 a ha]; exact hp a
+    obtain ⟨t', g1, g2, g3, g4⟩ :=
+      ih t1 _ (addBlock_inv h1 (hu x (by simp)) hi) (fun y hy => hu y (by simp [hy])) hs' hp'
+    refine ⟨t', ?_, by rw [g2, hh1], g3, g4⟩
+    simp only [List.map_cons, blockLoop, h1, g1]
+
+theorem consume_prefix :
+    ∀ (txs : List (Tx P)) (pool : Nat → List (Tx P)), (∀ a, ∃ r, pool a = pushAll (fun _ => []) txs a ++ r) →
+      ∃ q, consume pool (txs.map (·.1.hdr)) = some (q, txs) := by
+  intro txs
+  induction txs with
+  | nil => intro pool _; exact ⟨pool, rfl⟩
+  | cons x xs ih =>
+    intro pool hp
+    have hx : ∀ a, ∃ r, pool a = (if a = x.1.acct then [x] else []) ++ (pushAll (fun _ => []) xs a ++ r) := by
+      intro a
+      obtain ⟨r, hr⟩ := hp a
+      refine ⟨r, ?_⟩
+      rw [hr]
+      simp only [pushAll]
+      rw [pushAll_eq_append]
+      simp only [upd, List.nil_append, List.append_assoc]
+    obtain ⟨r, hr⟩ := hx x.1.acct
+    simp only [if_true, List.singleton_append] at hr
+    obtain ⟨q, hq⟩ := ih (upd pool x.1.acct (pushAll (fun _ => []) xs x.1.acct ++ r)) (by
+      intro a
+      simp only [upd]
+      by_cases ha : a = x.1.acct
+      · subst ha; exact ⟨r, by simp⟩
+      · obtain ⟨r', hr'⟩ := hx a
+        simp only [ha, if_false, List.nil_append] at hr' ⊢
+        exact ⟨r', hr'⟩)
+    refine ⟨q, ?_⟩
+    simp only [Block.hdr] at hq
+    simp only [List.map_cons, consume, Block.hdr, hr, if_true, hq]
+
+theorem contentOk_of_txs (m : Momentum) (txs : List (Tx P)) (h : txs.map (·.1.hdr) = m.content) :
+    contentOk ⟨m, txs.map (·.1)⟩ = true := by
+  simp only [contentOk, ← h, List.length_map, beq_self_eq_true, Bool.true_and, List.all_eq_true, List.any_eq_true,
+    List.mem_map]
+  rintro _ ⟨t, ht, rfl⟩
+  exact ⟨t.1, ⟨t, ht, rfl⟩, by simp⟩
+
+theorem stepMomentum_honest {W : VM P L} {U : Block → Prop} (hinj : ∀ b b', U b → U b' → b.id = b'.id → b = b')
+    {t : Node P} {m : Momentum} {txs : List (Tx P)} (hi : Inv U W t) (hu : ∀ x ∈ txs, U x.1)
+    (hs : TxsSound W t.hist (conf W t.hist) txs) (hc : txs.map (·.1.hdr) = m.content)
+    (hprev : m.prev = frontierId W t.hist) (hh : W.hash (W.pack (ledger W t.hist) txs) = m.changesHash)
+    (hv : W.mvalid (ledger W t.hist) m = true) :
+    ∃ q, stepMomentum W true true t ⟨m, txs.map (·.1)⟩ =
+      ({ hist := ⟨m, txs, W.pack (ledger W t.hist) txs⟩ :: t.hist, pool := q }, true) := by
+  have e : conf W t.hist = fun a => conf W t.hist a ++ (fun _ => ([] : List (Tx P))) a := by funext a; simp
+  rw [e] at hs
+  obtain ⟨t', g1, g2, _, g4⟩ := blockLoop_honest hinj txs t (fun _ => []) hi hu hs (fun a => ⟨t.pool a, by simp⟩)
+  obtain ⟨q, hq⟩ := consume_prefix txs t'.pool g4
+  refine ⟨q, ?_⟩
+  unfold stepMomentum
+  simp only [g1, g2, hprev, contentOk_of_txs m txs hc, ← hc, hq, hh, hv, ne_eq, not_true_eq_false, or_self,
+    Bool.true_eq_false, if_false, and_self, if_true]
+
+theorem deliver_honest {W : VM P L} {U : Block → Prop} (hinj : ∀ b b', U b → U b' → b.id = b'.id → b = b')
+    {t : Node P} {m : Momentum} {txs : List (Tx P)} (hi : Inv U W t) (hu : ∀ x ∈ txs, U x.1)
+    (hs : TxsSound W t.hist (conf W t.hist) txs) (hc : txs.map (·.1.hdr) = m.content)
+    (hprev : m.prev = frontierId W t.hist) (hh : W.hash (W.pack (ledger W t.hist) txs) = m.changesHash)
+    (hv : W.mvalid (ledger W t.hist) m = true) :
+    (deliver W true true t [⟨m, txs.map (·.1)⟩]).2 = none ∧
+      (known t.hist m = false → (deliver W true true t [⟨m, txs.map (·.1)⟩]).1.chain = m :: t.chain) := by
+  obtain ⟨q, hq⟩ := stepMomentum_honest hinj hi hu hs hc hprev hh hv
+  unfold deliver
+  cases hk : known t.hist m
+  · simp only [List.dropWhile, hk, hprev, ne_eq, not_true_eq_false, if_false, deliverGo, hq]
+    exact ⟨trivial, fun _ => rfl⟩
+  · simp [List.dropWhile, hk]
+
 end ZV.NodeSync
